@@ -23,6 +23,16 @@ def oracle(ctx, specs, k, rnd, dups):
         witnessed(T, vs)
     except NotTight as e:
         return ctx.fail("C05/" + e.kind, [specs, k], f"{e} ; inferred {show(T)} for {specs} (k={k})")
+    # the merge as the pipeline performs it: on per-value types that went through the store encoding
+    vs2 = [vals.build(s) for s in specs]
+    try:
+        Ts = tinfer.infer_via_store(vs2, k)
+    except Exception:
+        return
+    try:
+        witnessed(Ts, vs2)
+    except NotTight as e:
+        return ctx.fail("C05/" + e.kind, [specs, k, "via-store"], f"{e} ; merged from decoded per-value types: {show(Ts)} for {specs} (k={k})")
 
 
 def shard(ctx):
